@@ -261,6 +261,59 @@ pub fn run(ctx: &Ctx) -> i32 {
         ctx.family(fam, n, &format!("every enabled event history of length <= {} over {} symbols (layer, cel, slice, tags(2), legacy04, legacy11, palette, ignorable, next-frame, user data{}), after a prelude of {} record-free layers; histories are not merged; {} model transitions", depth, alphabet.len(), if alphabet.len() == 13 { " x 4 payload shapes" } else { " with rotating payload shape" }, PRELUDE_LAYERS, trans.load(std::sync::atomic::Ordering::Relaxed)), true);
         ctx.set_extra(&format!("model_transitions_{}", fam), json!(trans.load(std::sync::atomic::Ordering::Relaxed)));
     }
+    if ctx.wants_family("payloads") {
+        let texts = names();
+        let cols: [[u8; 4]; 5] = [[0, 0, 0, 0], [255, 255, 255, 255], [1, 2, 3, 4], [0, 0, 0, 255], [255, 0, 128, 1]];
+        let mut cases = Vec::new();
+        for ent in 0..5usize {
+            for flags in 0..8u32 {
+                for (ti, _) in texts.iter().enumerate() {
+                    for ci in 0..cols.len() {
+                        if (flags & 1 == 0 && ti > 0) || (flags & 2 == 0 && ci > 0) {
+                            continue;
+                        }
+                        cases.push((ent, flags, ti, ci));
+                    }
+                }
+            }
+        }
+        ctx.family("payloads", cases.len() as u64, "one record on each entity kind (layer, cel, slice, sprite, second tag) x flag word 0..7 (bit 2 = properties map, carried as opaque extra bytes) x text over NAMES x colour over 5 values", true);
+        let mut w = Want::structure_only();
+        w.pal_probes = vec![0];
+        w.name_probes = vec!["".into()];
+        w.id_probes = vec![0];
+        cases.par_iter().for_each(|(ent, flags, ti, ci)| {
+            let case = || format!("entity={} flags={} text#{} colour#{}", ent, flags, ti, ci);
+            if !ctx.wants("payloads", &case) {
+                return;
+            }
+            let fmt = Fmt::Rgba;
+            let mut f = gen::file(2, 2, &fmt, &[10]);
+            let ud = Body::UserData(UserData { flags: *flags, text: Str::new(&texts[*ti]), color: cols[*ci], extra: if flags & 4 != 0 { vec![4, 0, 0, 0, 0, 0, 0, 0] } else { vec![] } });
+            f.frames[0].push(Body::Layer(Layer::image("l")));
+            if *ent == 0 {
+                f.frames[0].push(ud.clone());
+            }
+            f.frames[0].push(raw_cel(0, 0, 0, 255, 1, 1, vec![1, 2, 3, 4]));
+            if *ent == 1 {
+                f.frames[0].push(ud.clone());
+            }
+            f.frames[0].push(slice("s", 0, vec![key(0, 0, 0, 1, 1)]));
+            if *ent == 2 {
+                f.frames[0].push(ud.clone());
+            }
+            f.frames[0].push(Body::OldPalette04(old_palette(vec![(0, vec![[0, 0, 0]])])));
+            if *ent == 3 {
+                f.frames[0].push(ud.clone());
+            }
+            f.frames[0].push(tags(vec![Tag::new("a", 0, 0, 0), Tag::new("b", 0, 0, 0)]));
+            if *ent == 4 {
+                f.frames[0].push(Body::UserData(UserData::text("first")));
+                f.frames[0].push(ud.clone());
+            }
+            conform(ctx, "payloads", &case, &f, &w);
+        });
+    }
     ctx.sample(json!({"history": "[Tags, Ignorable, Ud(4), Palette, Ud(4), Ud(4)]", "meaning": "tags(2) chunk, an ignorable chunk, a record (-> tag 0), a new palette chunk, a record (-> tag 1); the 3rd record is disabled in the model (more records than tags) so this history has length 5 at most"}));
     ctx.sample(json!({"history": "[Cel, Ud(4), NextFrame, Cel, Legacy04, Ud(4)]", "meaning": "cel (0,0) gets record u0; in frame 1 a cel, then a legacy palette chunk; record u1 goes to the sprite, not to cel (1,0)"}));
     ctx.note("the 'randomly beyond' clause of the quantifier is sampling and is not claimed");
